@@ -59,6 +59,10 @@ PROCS = ['validate', 'validate_schema', 'deduplicate', 'printer', 'set_type', 's
          'load_package']
 
 
+SEQ_PROCS = ('delete_resource', 'concatenate', 'filter_rows', 'deduplicate', 'sort_rows', 'update_resource', 'printer',
+             'set_type')
+
+
 def build(proc, s, log):
     """-> (pre_steps, step). Fresh objects on every call."""
     d = lab.df()
@@ -308,6 +312,29 @@ def run_case(case):
         if contract_bad and not viol:
             v('matcher_contract', 'ResourceMatcher(%r).match disagreed with reference on %r'
               % (s, contract_bad[:4]))
+        # the same step over a SEQUENTIAL single-handle source (unstream of one ndjson text): resources that are
+        # skipped or dropped must still be read past, or the following ones receive their rows
+        if proc in SEQ_PROCS and got.ok and not viol:
+            import io
+            buf = io.StringIO()
+
+            class Keep(io.StringIO):
+                def close(self):
+                    pass
+            sink = Keep()
+            with boot.quiet():
+                d.Flow(*(srcs() + [d.stream(sink)])).process()
+            log3 = []
+            pre3, st3 = build(proc, copy.deepcopy(s), log3)
+            got3 = lab.run([d.unstream(io.StringIO(sink.getvalue()))] + pre3 + [st3])
+            cov['proc_x_form']['%s/%s/unstream' % (proc, form)] = 1
+            if got3.ok != got.ok or (got3.ok and (got3.names != got.names or any(
+                    lab.rows_diff(a, b, 1) for a, b in zip(got.results, got3.results)))):
+                dd = 'failed: %s' % got3.errstr() if not got3.ok else next(
+                    ('resource %s: %s' % (n, lab.rows_diff(a, b, 1)[0]) for n, a, b in
+                     zip(got.names, got.results, got3.results) if lab.rows_diff(a, b, 1)), 'resource names %r' % got3.names)
+                v('sequential_source', '%s(resources=%r) on %r gives a different result when the package is read from one '
+                  'sequential stream (unstream): %s' % (proc, s, names, dd[:300]))
         nontrivial = 0 < len(want_sel) < len(names)
         sample = {'names': names, 'selector': s, 'proc': proc, 'reference_selection': want_sel}
         return dict(nontrivial=nontrivial, violations=viol, cov=cov, counters=counters,
